@@ -3,6 +3,7 @@ package vx
 import (
 	"fmt"
 	"hash/fnv"
+	"os"
 	"runtime"
 	"strings"
 	"testing"
@@ -43,6 +44,10 @@ func Bubble(t *testing.T, fn func(b *B)) {
 			if q := recover(); q != nil && p == nil {
 				p = q
 				site = 7
+				if os.Getenv("VERIF_DEBUG") != "" {
+					buf := make([]byte, 1<<18)
+					fmt.Fprintf(os.Stderr, "synctest panic %v; all goroutines:\n%s\n", q, buf[:runtime.Stack(buf, true)])
+				}
 			}
 		}()
 		synctest.Test(t, func(_ *testing.T) {
